@@ -115,6 +115,20 @@ CHECKS = {
             "bounded: histories of 3 steps (2.5% sample quick, all thorough) from 27 initial states; 22 / 132 searches over 11 "
             "constraint sets; constant, random, one/two-argument and nested (deterministic inner) generators; F31, F32 known",
             "TLA+ model (TLC exhaustive) + TLC-enumerated histories replayed into real trees + TLC trace validation of logged generator calls"),
+    "C17": ("exploration",
+            "two fresh processes per configuration (same spec, settings, random seed incl. 0, PYTHONHASHSEED) record the event stream "
+            "of the run (operator results, solutions as emitted, returned list, first parses of ambiguous words); "
+            "Trace_Lockstep.tla walks the two streams in lock-step and names the first diverging event",
+            "32 (quick) / 800 (thorough) configurations over generated specs, generator specs, quantifier specs, computed "
+            "repetitions and an ambiguous parse-heavy spec; the TLA+ part is the lock-step comparison only",
+            "pairs of real processes compared in lock-step by a TLC trace specification"),
+    "C18": ("model_checking",
+            "Globals.tla makes the process-wide state explicit (repetition cap, IO environment key); TLC shows NonInterference for "
+            "a run-scoped cap and its violation for the leaking cap; every TLC-enumerated history of operations on A and B is "
+            "replayed in a fresh process and B's event stream is compared in lock-step (Trace_Lockstep.tla) with B running alone",
+            "bounded: histories <= 5 operations (20 sampled quick, all 500+ thorough) x 4 / 14 spec pairs; protocol-mode "
+            "isolation only as a pinned witness (F11)",
+            "TLA+ model (TLC exhaustive) + TLC-enumerated histories replayed in fresh processes, differential lock-step comparison"),
 }
 
 NOT_YET = "check not built yet in this round (work in progress, see DESIGN.md section 8); not claimed"
